@@ -330,6 +330,34 @@ def pipeline_case(ctx: Ctx, kind: str, seed: int, ncalls: int, compare_model: bo
                 return
 
 
+def rich_case(ctx: Ctx, seed: int) -> None:
+    """a richer exploration (longer basin-hopping, two rounds of three nearest-neighbour cycles): on these
+    seeds a connection attempt finds a second, different transition state for an ALREADY connected pair, so
+    an edge of the network is rewritten"""
+    import random
+    rng = random.Random(seed)
+    ns, ktn, coords, pot, tr, cfg = build(ctx, "cosine", rng, seed)
+    done = []
+    steps = [("get_minima", lambda: ns.get_minima(coords, 50, 1e-5, 1.0, test_valid=True)),
+             ("ts_closest_3", lambda: ns.get_transition_states('ClosestEnumeration', 3, remove_bounds_minima=False)),
+             ("ts_closest_3", lambda: ns.get_transition_states('ClosestEnumeration', 3, remove_bounds_minima=False))]
+    coords.position = coords.generate_random_point()
+    for name, fn in steps:
+        try:
+            fn()
+        except Exception as e:
+            ctx.fail(f"pipeline-call-raises:{name}", f"{name} raised {type(e).__name__}: {e} on {cfg['label']} (rich seed {seed})",
+                     {"rich": True, "seed": seed})
+            return
+        done.append(name)
+        ctx.stats.case({"surface": cfg["label"], "rich_seed": seed, "calls": list(done)}, True)
+        ctx.stats.branch("rich:" + name)
+        r = landscape_predicate(ktn, pot, cfg, tr)
+        if r:
+            ctx.fail(r[0], f"{r[1]} — after {done} on {cfg['label']} (rich seed {seed})", {"rich": True, "seed": seed})
+            return
+
+
 def correspond(ctx: Ctx) -> None:
     rng = ctx.rng
     kinds = ["camelback", "cosine", "cosine", "schwefel"]
@@ -345,6 +373,8 @@ def predicates(ctx: Ctx) -> None:
     # corpus: seeds that produced interesting networks / past failures run first
     for kind, seed, ncalls in [("camelback", 3, 4), ("cosine", 17, 4)]:
         pipeline_case(ctx, kind, seed, ncalls, False)
+    for seed in (11, 179, 301) + ((207, 225) if (ctx.thorough or deep) else ()):
+        rich_case(ctx, seed)
     n = ctx.scale(6, 40) * (3 if deep else 1)
     for i in range(n):
         kind = rng.choice(["camelback", "cosine", "cosine", "cosine", "schwefel"])
@@ -352,6 +382,11 @@ def predicates(ctx: Ctx) -> None:
 
 
 def replay(ctx: Ctx, data: dict) -> bool:
+    if data.get("rich"):
+        rich_case(ctx, data["seed"])
+        for f in ctx.failures:
+            print(f"  {f.key}: {f.what}")
+        return not ctx.failures
     pipeline_case(ctx, data["surface"], data["seed"], len(data["calls"]), False)
     for f in ctx.failures:
         print(f"  {f.key}: {f.what}")
